@@ -534,3 +534,86 @@ static void run_c04_reccond(void)
 }
 SIM_WORKLOAD("C04", "recursive-mutex-cond", run_c04_reccond, 2)
 
+
+/* ---- scenario "rejected-free": ABT_cond_free of a condition variable that still has waiters is
+ * an error the 1.x API reports (ABT_ERR_COND); the refused call leaves the handle and the
+ * object as they were: the waiters are still there and the next broadcast under the mutex
+ * releases every one of them. ---- */
+static struct {
+    wl_rt rt;
+    ABT_mutex m;
+    ABT_cond cv;
+    int n;
+    volatile int waiting, returned, pred;
+    wl_actor A[MAXA];
+} RF;
+static void rf_waiter(wl_actor *a)
+{
+    ABT_OK(ABT_mutex_lock(RF.m));
+    RF.waiting++;
+    while (!RF.pred) {
+        if ((a->args[0] & 1) && a->kind == AK_ULT) {
+            /* a timed wait of a ULT polls the clock and owns no timer the virtual clock could
+             * jump to while everybody is idle: its deadline, years ahead, is never reached.  (An
+             * external thread's timed wait sleeps on a timer, which an idle system jumps to.) */
+            struct timespec ts = wl_abstime(4000000000ULL * 1000000000ULL);
+            int r = ABT_cond_timedwait(RF.cv, RF.m, &ts);
+            SIM_CHECK(r == ABT_SUCCESS, "cond:timedout-before-deadline", "a timed wait with a deadline 4*10^9 s ahead returned %d", r);
+        } else
+            ABT_OK(ABT_cond_wait(RF.cv, RF.m));
+    }
+    RF.returned++;
+    ABT_OK(ABT_mutex_unlock(RF.m));
+    sim_progress();
+}
+static void rf_diag(char *buf, int sz)
+{
+    int k = snprintf(buf, (size_t)sz, "rejected-free: waiting=%d returned=%d of %d ", RF.waiting, RF.returned, RF.n);
+    wl_actors_diag(RF.A, RF.n, buf + k, sz - k);
+}
+static void run_c05_rejected_free(void)
+{
+    memset(&RF, 0, sizeof RF);
+    sim_set_diag_cb(rf_diag);
+    wl_rt *rt = &RF.rt;
+    wl_rt_start(rt, WL_RT_NO_TOPO2);
+    ABT_OK(ABT_mutex_create(&RF.m));
+    ABT_OK(ABT_cond_create(&RF.cv));
+    const void *wlst = wb_cond_waitlist(RF.cv);
+    RF.n = plan_range(1, 4);
+    sim_note("C05 rejected-free waiters=%d: ", RF.n);
+    for (int i = 0; i < RF.n; i++) {
+        wl_actor *a = &RF.A[i];
+        a->id = i;
+        a->kind = plan_n(3) == 0 ? AK_EXT : AK_ULT;
+        a->pool = (int)plan_n((uint32_t)rt->npools);
+        a->body = rf_waiter;
+        a->args[0] = (int)plan_n(4);
+        sim_note("%s%s ", wl_actor_kind_names[a->kind], ((a->args[0] & 1) && a->kind == AK_ULT) ? "/timed" : "");
+    }
+    wl_actors_spawn(rt, RF.A, RF.n);
+    /* every waiter is on the condition variable's list (white-box: the reference model of
+     * M-waitlist), and stays there: nobody signals before we do */
+    while (wb_waitlist_len(wlst) < RF.n)
+        ABT_OK(ABT_thread_yield());
+    ABT_cond h = RF.cv;
+    int rc = ABT_cond_free(&h);
+    SIM_CHECK(rc == ABT_ERR_COND, "cond:free-with-waiters", "ABT_cond_free of a condition variable with %d waiters returned %d, documented: ABT_ERR_COND (%d)", RF.n, rc, ABT_ERR_COND);
+    SIM_CHECK(h == RF.cv, "cond:free-with-waiters", "the refused ABT_cond_free changed the handle");
+    sim_progress();
+    ABT_OK(ABT_mutex_lock(RF.m));
+    RF.pred = 1;
+    if (RF.n == 1 && plan_bool())
+        ABT_OK(ABT_cond_signal(RF.cv));
+    else
+        ABT_OK(ABT_cond_broadcast(RF.cv));
+    ABT_OK(ABT_mutex_unlock(RF.m));
+    sim_progress();
+    wl_actors_join(rt, RF.A, RF.n);
+    SIM_CHECK(RF.returned == RF.n, "cond:wakeup-count", "%d of %d waiters returned after the broadcast", RF.returned, RF.n);
+    sim_count("cond.frees_refused_because_of_waiters", 1);
+    ABT_OK(ABT_cond_free(&RF.cv));
+    ABT_OK(ABT_mutex_free(&RF.m));
+    wl_rt_stop(rt);
+}
+SIM_WORKLOAD("C05", "rejected-free", run_c05_rejected_free, 2)
